@@ -62,10 +62,16 @@ package database
 // GetReferences: exactly the entries of the row, for every location.
 //@ func (References).GetReferences
 //@ requires RefsAlloc(rs)
+//@ requires forall s: ReferenceSpec, t: string :: (s in rs) && (t in rs[s]) ==> allocated(rs[s][t])
 //@ modifies nothing
 //@ ensures result != nil && fresh(result)
 //@ ensures forall s: ReferenceSpec :: (s in result) == ((s in rs) && s.ToTable == table && rs[s] != nil && (uuid in rs[s]))
-//@ ensures forall s: ReferenceSpec :: (s in result) ==> (result[s] != nil && (uuid in result[s]) && result[s][uuid] == rs[s][uuid] && len(result[s]) == 1)
+// the lists handed out are copies: equal elements, own (fresh) backing array
+//@ pred SameList(a []string, b []string) := len(a) == len(b) && (forall i: int :: 0 <= i && i < len(a) ==> a[i] == b[i])
+//@ ensures forall s: ReferenceSpec :: (s in result) ==> (result[s] != nil && (uuid in result[s]) && SameList(result[s][uuid], rs[s][uuid]) && (len(rs[s][uuid]) > 0 ==> fresh(result[s][uuid])) && len(result[s]) == 1)
 //@ loop 1 invariant refs != nil && fresh(refs)
 //@ loop 1 invariant forall s: ReferenceSpec :: (s in refs) == (visited(s) && (s in rs) && s.ToTable == table && rs[s] != nil && (uuid in rs[s]))
-//@ loop 1 invariant forall s: ReferenceSpec :: (s in refs) ==> (refs[s] != nil && fresh(refs[s]) && (uuid in refs[s]) && refs[s][uuid] == rs[s][uuid] && len(refs[s]) == 1)
+//@ loop 1 invariant forall s: ReferenceSpec :: (s in refs) ==> (refs[s] != nil && fresh(refs[s]) && (uuid in refs[s]) && len(refs[s]) == 1)
+//@ loop 1 invariant forall s: ReferenceSpec :: (s in refs) ==> (len(rs[s][uuid]) > 0 ==> fresh(refs[s][uuid]))
+//@ loop 1 invariant forall s: ReferenceSpec :: (s in refs) ==> len(refs[s][uuid]) == len(rs[s][uuid])
+//@ loop 1 invariant forall s: ReferenceSpec, i: int :: (s in refs) && 0 <= i && i < len(rs[s][uuid]) ==> refs[s][uuid][i] == rs[s][uuid][i]
